@@ -20,6 +20,14 @@ mod parse;
 mod agentl1;
 #[cfg(feature = "full")]
 mod junos;
+#[cfg(feature = "full")]
+mod peers;
+#[cfg(feature = "full")]
+mod realwire;
+#[cfg(feature = "full")]
+mod realwire2;
+#[cfg(feature = "full")]
+mod trace;
 
 use util::Cfg;
 
@@ -43,6 +51,14 @@ fn main() {
         "c03-l1" => agentl1::run_histories(&cfg, agentl1::Prop::C03),
         #[cfg(feature = "full")]
         "c16" => agentl1::run_c16(&cfg),
+        #[cfg(feature = "full")]
+        "worker" => realwire::worker_main(&args[2..]),
+        #[cfg(feature = "full")]
+        "fake-cli" => peers::fake_cli_main(&args[2..]),
+        #[cfg(feature = "full")]
+        "c06" => realwire::run_c06(&cfg),
+        #[cfg(feature = "full")]
+        "c07" => realwire::run_c07(&cfg),
         "c13" => parse::run_c13(&cfg),
         "c14" => parse::run_c14(&cfg),
         _ => {
